@@ -14,6 +14,7 @@
 #include <sys/resource.h>
 #include <sys/socket.h>
 #include <sys/stat.h>
+#include <sys/syscall.h>
 #include <sys/time.h>
 #include <sys/wait.h>
 #include <time.h>
@@ -42,7 +43,7 @@ static int my_ctl = -1;
 
 const char *vk_call_names[] = { "none", "pipe", "close", "read", "write", "poll", "fork", "waitpid", "kill",
   "open", "dup2", "fcntl", "chdir", "exec", "getcwd", "getrlimit", "fileno", "malloc", "calloc", "realloc",
-  "strdup", "free", "sigmask", "sigaction", "sigset", "clock", "_exit", "dup", "sleep" };
+  "strdup", "free", "sigmask", "sigaction", "sigset", "clock", "_exit", "dup", "sleep", "close_range" };
 
 /* ---------------------------------------------------------------- logging */
 
@@ -486,6 +487,7 @@ static const struct fault_menu fault_menus[C_NCALLS] = {
   [C_SIGMASK] = { 1, { EINVAL } },
   [C_SIGACTION] = { 1, { EFAULT } },
   [C_SIGSET] = { 1, { EINVAL } },
+  [C_CLOSE_RANGE] = { 1, { ENOSYS } }, /* older kernels, sandboxes that answer unknown system calls with ENOSYS */
 };
 
 static int budget_left(int kind, int bound)
@@ -1771,6 +1773,33 @@ pid_t vk_waitpid(pid_t pid, int *status, int options)
   ev_done(e, r, er);
   errno = er;
   return r;
+}
+
+/* raw system calls: close_range() is the one a descriptor sweep may be tempted to use. It is carried out within the virtual descriptor limit
+ * (the harness's own descriptors live above it) and may be answered with ENOSYS; anything else goes to the kernel as it is. */
+long vk_syscall(long nr, ...)
+{
+  va_list ap;
+  long a[6];
+  va_start(ap, nr);
+  for (int i = 0; i < 6; i++) a[i] = va_arg(ap, long);
+  va_end(ap);
+#ifdef SYS_close_range
+  if (nr == SYS_close_range) {
+    struct vk_event *e = ev_new(C_CLOSE_RANGE, a[0], a[1], a[2]);
+    int f = fault(C_CLOSE_RANGE);
+    if (f) { e->injected = f; errno = f; ev_done(e, -1, f); return -1; }
+    unsigned long first = (unsigned long) (unsigned int) a[0], last = (unsigned long) (unsigned int) a[1];
+    unsigned long lim = vk_cfg.vlimit > 0 ? (unsigned long) vk_cfg.vlimit : 1024;
+    for (unsigned long fd = first; fd <= last && fd < lim; fd++) {
+      if (vk_side == 0) { if (fcntl((int) fd, F_GETFD) >= 0) vk_close((int) fd); }
+      else close((int) fd);
+    }
+    ev_done(e, 0, 0);
+    return 0;
+  }
+#endif
+  return syscall(nr, a[0], a[1], a[2], a[3], a[4], a[5]);
 }
 
 /* the rest of the wait family, expressed through vk_waitpid so that the child ledger sees them (a wait for "any child" is never the library's
